@@ -985,7 +985,13 @@ pub const C17: Registry = &[
 
 pub fn c17(ctx: &mut Ctx) -> Search {
     let t = ctx.thorough;
-    let lens: Vec<usize> = if t { (1..=40).chain([64, 65, 100, 257]).collect() } else { vec![1, 2, 16, 17, 33, 64] };
+    // bodies beyond small-buffer thresholds as well (256 / 4096: scratch-buffer and chunked paths are realistic places
+    // for a lost wipe-on-error)
+    let lens: Vec<usize> = if t {
+        (1..=40).chain([64, 65, 100, 255, 256, 257, 300, 511, 513, 1000, 1025, 4095, 4096, 4097, 8193, 16389, 65537]).collect()
+    } else {
+        vec![1, 2, 16, 17, 33, 64, 256, 257, 300, 1000, 4097]
+    };
     for len in lens {
         let m = ctx.rng.bytes(len);
         let (k, n) = (ctx.rng.arr::<32>(), ctx.rng.arr::<24>());
